@@ -54,7 +54,12 @@ fn format_field(name: &str, value: &str) -> String {
         | "Enhances"
         | "Pre-Depends"
         | "Breaks" => {
-            let relations: Relations = value.parse().unwrap();
+            // Substitution variables (${misc:Depends}) are part of such fields; a value that is not a
+            // relationship field at all is left as it is
+            let (relations, errors) = Relations::parse_relaxed(value, true);
+            if !errors.is_empty() {
+                return value.to_string();
+            }
             let relations = relations.wrap_and_sort();
             relations.to_string()
         }
